@@ -313,9 +313,12 @@ func (w *World) runHarness(h *Harness) (res *Result) {
 func main() {
 	if pf := os.Getenv("GOVC_CPUPROFILE"); pf != "" {
 		if f, err := os.Create(pf); err == nil {
-			pprof.StartCPUProfile(f)
+			delay, dur := 0, 25
+			fmt.Sscanf(os.Getenv("GOVC_CPUPROFILE_WINDOW"), "%d,%d", &delay, &dur)
 			go func() {
-				time.Sleep(25 * time.Second)
+				time.Sleep(time.Duration(delay) * time.Second)
+				pprof.StartCPUProfile(f)
+				time.Sleep(time.Duration(dur) * time.Second)
 				pprof.StopCPUProfile()
 				f.Close()
 			}()
@@ -460,21 +463,89 @@ var solvePar = 10
 func solveAll(res *Result, timeout time.Duration, portfolio bool) {
 	res.Verdicts = make([]Verdict, len(res.Obls))
 	queries := make([]string, len(res.Obls))
-	for i, o := range res.Obls {
-		queries[i] = res.engine.buildQuery(o, nil)
+	runAllT := func(idx []int, to time.Duration) {
+		var wg sync.WaitGroup
+		sem := make(chan struct{}, solvePar)
+		for _, i := range idx {
+			wg.Add(1)
+			sem <- struct{}{}
+			go func(i int) {
+				defer wg.Done()
+				defer func() { <-sem }()
+				res.Verdicts[i] = solve(res.Harness.Name+"."+res.Obls[i].Name, queries[i], to, portfolio)
+			}(i)
+		}
+		wg.Wait()
 	}
-	var wg sync.WaitGroup
-	sem := make(chan struct{}, solvePar)
-	for i := range res.Obls {
-		wg.Add(1)
-		sem <- struct{}{}
-		go func(i int) {
-			defer wg.Done()
-			defer func() { <-sem }()
-			res.Verdicts[i] = solve(res.Harness.Name+"."+res.Obls[i].Name, queries[i], timeout, portfolio)
-		}(i)
+	runAll := func(idx []int) { runAllT(idx, timeout) }
+	// first pass: the hypotheses relevant to each goal only (a proof from fewer hypotheses is a proof)
+	var full []int
+	if !noSlice {
+		var sliced []int
+		for i, o := range res.Obls {
+			if o.Kind == "canary" {
+				full = append(full, i) // reachability needs every hypothesis
+				continue
+			}
+			h, cut := slicedHyp(o.hyp, o.goal)
+			if !cut {
+				full = append(full, i)
+				continue
+			}
+			tq := time.Now()
+			queries[i] = res.engine.buildQueryFrom(h, o.goal)
+			if traceCalls && len(queries[i]) > 10000000 && os.Getenv("GOVC_DUMP_BIG") != "" {
+				os.WriteFile(os.Getenv("GOVC_DUMP_BIG"), []byte(queries[i]), 0o644)
+				os.Exit(3)
+			}
+			if traceCalls {
+				fmt.Fprintf(os.Stderr, "sliced %s: %d of %d conjuncts, %d bytes, %.2fs\n", o.Name, len(flattenAnd(h, nil)), len(flattenAnd(o.hyp, nil)), len(queries[i]), time.Since(tq).Seconds())
+			}
+			sliced = append(sliced, i)
+		}
+		if traceCalls {
+			fmt.Fprintf(os.Stderr, "solveAll: %d obligations, %d sliced queries built\n", len(res.Obls), len(sliced))
+		}
+		// (a short budget: a slice that is not refuted at once is not worth waiting for)
+		sto := 5 * time.Second
+		if timeout < sto {
+			sto = timeout
+		}
+		runAllT(sliced, sto)
+		if traceCalls {
+			fmt.Fprintf(os.Stderr, "solveAll: sliced pass done\n")
+		}
+		for _, i := range sliced {
+			if res.Verdicts[i].Status == "unsat" {
+				res.Verdicts[i].Solver += "/sliced"
+			} else {
+				full = append(full, i)
+			}
+		}
+		sort.Ints(full)
+	} else {
+		for i := range res.Obls {
+			full = append(full, i)
+		}
 	}
-	wg.Wait()
+	if traceCalls {
+		fmt.Fprintf(os.Stderr, "solveAll: %d full queries to build\n", len(full))
+	}
+	for _, i := range full {
+		t0 := res.Verdicts[i].Time
+		queries[i] = res.engine.buildQuery(res.Obls[i], nil)
+		res.Verdicts[i] = Verdict{Time: t0}
+	}
+	{
+		prev := make([]float64, len(res.Obls))
+		for _, i := range full {
+			prev[i] = res.Verdicts[i].Time
+		}
+		runAll(full)
+		for _, i := range full {
+			res.Verdicts[i].Time += prev[i]
+		}
+	}
 	// an obligation that comes back undecided may only have lost the race for the cores: decide it
 	// again on its own with three times the budget before anything is concluded from it
 	for i, o := range res.Obls {
